@@ -51,7 +51,7 @@ pub fn subs() -> Vec<Box<dyn SubCheck>> {
     vec![Box::new(PropCheck::<Scenario, _> {
         name: "cwnd_e2e",
         cases: |t| t.pick(1_200, 80_000),
-        strategy: |_t: Tier| gen::scenario(CFG),
+        strategy: |_t: Tier| gen::with_retry(gen::scenario(CFG)),
         oracle,
         max_shrink_iters: 400,
     })]
